@@ -46,6 +46,8 @@ def run_shard(spec, M):
             if fam == "boundaries":
                 # counts crossing 10/100/1000, columns >= 100, special values ("<", "@", keywords as names, 300-character names, ...)
                 kw = {"size": "huge" if i % 30 == 0 else ("small" if i % 2 else "medium"), "special": 0.35, "deep": True, "rare": False}
+            if fam in ("docs", "reused"):
+                kw = dict(kw, allow_default=True)
             R = doccheck.make_doc(seed, fam, i, **kw)
             case = {"kind": "doc", "family": fam, "index": i, "seed": seed, "text": R.text, "kw": kw}
             doccheck.check_doc(R, M, case, "C03", reused=reused)
